@@ -92,7 +92,12 @@ fn supported_query(r: &mut Rng, cat: &Catalog) -> String {
     let lit = || -> String { "0".into() };
     let _ = lit;
     let num_lit = *r.pick(&["0", "1", "-1", "2", "0.5", "1e10", "9223372036854775807", "-9223372036854775808", "0.0"]);
-    match r.below(36) {
+    match r.below(40) {
+        // no FROM clause, chains of set operations, extreme LIMIT / OFFSET
+        36 => format!("SELECT {} AS x", num_lit),
+        37 => format!("SELECT {c} FROM {t} UNION SELECT {c} FROM {t} UNION ALL SELECT {c} FROM {t}", c = q(c1), t = t.name),
+        38 => format!("SELECT {c} FROM {t} EXCEPT SELECT {c} FROM {t} INTERSECT SELECT {c} FROM {t}", c = q(c1), t = t.name),
+        39 => format!("SELECT {} FROM {} LIMIT {} OFFSET {}", q(c1), t.name, r.pick(&["18446744073709551615", "9223372036854775807", "9223372036854775808"]), r.pick(&["0", "9223372036854775807", "18446744073709551615"])),
         // bare columns next to aggregates (read as FIRST(column)): with and without being grouping keys
         34 => format!("SELECT {}, SUM({}) AS s FROM {}", q(c1), q(c2), t.name),
         35 => format!("SELECT {}, {}, SUM({}) AS s, COUNT(*) AS n FROM {} GROUP BY {}", q(c1), q(c2), q(c3), t.name, q(c1)),
